@@ -4,11 +4,11 @@ package main
 // recovers what the kernel encoded).
 
 import (
-	"math/big"
 	"bufio"
 	"encoding/hex"
 	"encoding/json"
 	"fmt"
+	"math/big"
 	"math/rand"
 	"net"
 	"os"
